@@ -46,7 +46,8 @@ STEP_KEYS = ("steps",)
 CATALOGUE = ["unknown_device", "unknown_property", "unknown_element", "kind_mismatch", "bad_value_parse_ok", "bad_value_parser_rejects",
              "blob_wrong_size", "blob_nonnumeric_size", "blob_missing_size", "blob_bad_base64", "no_children", "duplicate_children",
              "mixed_children", "device_kind_from_client", "enableblob_unknown_device", "unregistered_message_tag",
-             "enableblob_unregistered_sender", "getprops_odd", "empty_value", "blob_empty_wrong_size", "huge_number", "raw_bytes"]
+             "enableblob_unregistered_sender", "getprops_odd", "empty_value", "blob_empty_wrong_size", "huge_number", "raw_bytes",
+             "unsolicited_ping_reply"]
 TRANSPORTS = ["tcp", "tty", "direct"]
 ONE = {"Text": "oneText", "Number": "oneNumber", "Switch": "oneSwitch", "BLOB": "oneBLOB", "Light": "oneText"}
 NEW = {"Text": "newTextVector", "Number": "newNumberVector", "Switch": "newSwitchVector", "BLOB": "newBLOBVector", "Light": "newTextVector"}
@@ -214,6 +215,10 @@ def hostile(rng, entry, dev, v):
         return {"xml": f'<message device="{dev}" message="hello"/>\n', "valid": [], "parser_ok": False}
     if entry == "enableblob_unregistered_sender":
         return {"xml": f'<enableBLOB device="{dev}">Also</enableBLOB>\n', "valid": [], "parser_ok": True, "direct_sender": rng.choice(["none", "unregistered"])}
+    if entry == "unsolicited_ping_reply":
+        # a well-formed client message that addresses nothing and that nobody asked for (the only client message kind without a
+        # name attribute); it is offered to every driver
+        return {"xml": rng.choice(['<pingReply uid="abc"/>\n', '<pingReply uid=""/>\n', f'<pingReply uid="{dev}"></pingReply>\n']), "valid": [], "parser_ok": True}
     if entry == "getprops_odd":
         return {"xml": rng.choice([f'<getProperties version="9.9" device="{dev}" name="NOPE"/>\n', '<getProperties version="" />\n',
                                    f'<getProperties version="1.7" name="{v["name"]}"/>\n']), "valid": [], "parser_ok": True}
